@@ -25,7 +25,10 @@ from .modelbox import build_model, spatial_for
 def taint_worker(job):
     repo, spec = job
     it, w = get_interp(repo)
-    w.mark_stop_gradient = True
+    # stop_gradient only protects a value when it is executed inside the differentiated forward pass; applied
+    # at construction time (outside any trace) it is the identity.  So symbols are renamed sg(.) only while the
+    # layer / model is being *called*, never while it is being built.
+    w.mark_stop_gradient = False
     A.set_cut(24 if spec["cls"] != "ConvContract" else None)
     cfg = dict(spec)
     problems = []
@@ -42,6 +45,7 @@ def taint_worker(job):
             layer = ml.ConvContract(tuple(in_sig), tuple(out_sig), bank, spec.get("use_bias", "auto"), 1, None, None, 1, Key(0))
             xb = {t: block("x", t, (c,), N, D) for t, c in in_sig}
             x = make_multi(it, [t for t, _ in in_sig], xb, D, True)
+            w.mark_stop_gradient = True
             if spec.get("fast"):
                 y = attempt(lambda: layer.fast_convolve(x, layer.weights))
             else:
@@ -57,6 +61,7 @@ def taint_worker(job):
                 return dict(cfg=cfg, problems=problems)
             N = spatial_for(spec)
             xb = {t: block("x", t, (c,), N, D) for t, c in in_sig}
+            w.mark_stop_gradient = True
             r = attempt(lambda: model(make_multi(it, [t for t, _ in in_sig], xb, D, True)))
             y = r if isinstance(r, Rejected) else r[0]
         if isinstance(y, Rejected):
@@ -125,7 +130,7 @@ def ast_rules(ctx):
                         kind = "shape-only"
                     reads.append((st.name, n.lineno, kind))
     ev.extra["bank_reads"] = [list(r) for r in reads]
-    ev.instances("C09.TAINT.stop_gradient_sites", len([r for r in reads if r[2] == "stop_gradient"]), floor=1)
+    ev.instances("C09.TAINT.stop_gradient_sites", len([r for r in reads if r[2] == "stop_gradient"]))  # a statistic: the taint obligations below decide
 
     # train_step
     fn = pm.func(TRAIN_MOD, "train_step")
